@@ -1,7 +1,7 @@
 #!/bin/bash
 # dev helper: tools/seedcheck.sh <ID> [outdir]  -- confirm a seeded change produced by a sub-agent
 #  1. demo passes on a clean checkout of /repo HEAD and fails with the patch
-#  2. the repository's test suite fails exactly as before (only test_bsdecomp, test_cond)
+#  2. the repository's test suite passes as before (182)
 #  3. the property's quick check reports a VIOLATION on the patched tree (via VERIF_REPO, /repo untouched)
 id=$1; out=${2:-/tmp/wt/$id.out}
 scratch=/tmp/wt/verify_$id
